@@ -108,8 +108,12 @@ func NewFuzzySearcher(ctx context.Context, indexReader index.IndexReader, term s
 		return NewTermSearcher(ctx, indexReader, term, field, boost, options)
 	}
 
-	return NewMultiTermSearcherBoosted(ctx, indexReader, candidates, field,
+	mts, err := NewMultiTermSearcherBoosted(ctx, indexReader, candidates, field,
 		boost, editDistances, options, true)
+	if err != nil {
+		return nil, err
+	}
+	return termOrMultiTermSearcher(ctx, indexReader, mts, len(candidates), term, field, boost, options)
 }
 
 func GetAutoFuzziness(term string) int {
